@@ -8,6 +8,7 @@
     ed.sign    <s|v> <n> <data>
     ed.verify  <s|v> <n> <data> <blob>
     legacy.ec.verify / legacy.ed.verify / legacy.text <blob>   (behaviour before the fix: commits)
+    table <rsa|ec>                                   → the algorithm tables of the model (compared with the classes' tables)
     witness <nonutf8|ecneg|edshort>                 → the blob of the `legacy_*_witness` theorem
   `p` = object holding the private key `n`; `u` = object holding only the public key `n`.
   `s` = Ed25519 object with only `_signing_key`; `v` = only `_verifying_key`.
@@ -97,6 +98,11 @@ def step (line : String) : String :=
     match ofHex? blob with
     | some b => showRes (fun _ => "-") (Legacy.textGuard b)
     | none => "bad-op"
+  | ["table", "rsa"] =>
+    -- RSAKey.HASHES as the model has it: <name hex>:<hash id>:<wire name hex>,…
+    ",".intercalate (rsaTable.map fun e => toHexTok e.1 ++ ":" ++ toString e.2.1.id ++ ":" ++ toHexTok e.2.2)
+  | ["table", "ec"] =>
+    ",".intercalate ([Curve.p256, Curve.p384, Curve.p521].map fun c => toHexTok c.name ++ ":" ++ toString c.hash.id)
   | ["witness", name] =>
     if name == "nonutf8" then toHexTok [0, 0, 0, 1, 0xff]
     else if name == "ecneg" then toHexTok PV.Props.C35.ecNegBlob
